@@ -5,7 +5,7 @@ import os
 from .. import common as C
 
 ID = "C03"
-COQ_TARGETS = ["Tie/C03.vo", "Tie/C03mro.vo", "Properties/C03.vo"]
+COQ_TARGETS = ["Tie/C03.vo", "Tie/C03mro.vo", "Tie/C03leg.vo", "Properties/C03.vo"]
 PROPERTY_FILE = "Properties/C03.v"
 TIE = "Tie.C03"
 DRIVER = "c03_driver.py"
@@ -16,7 +16,7 @@ THEOREMS = [
     "C03_ro_eq_c3", "C03_strict_raises_iff", "C03_is_consistent_iff", "C03_ro_valid",
     "C03_legacy_valid", "C03_sro_valid", "C03_sro_eq_c3_rooted", "C03_root_last",
     "C03_single_base_shortcut_sound", "C03_iro_is_filter", "C03_oracle_sound",
-    "C03_strict_sro_raises_iff",
+    "C03_strict_sro_raises_iff", "C03_legacy_sro_valid",
 ]
 RULE = ("ordered inheritance DAGs of real InterfaceClass objects and class specifications "
         "(implementer on real classes); streams: pure interface DAGs, DAGs with Interface as an explicit "
@@ -346,10 +346,39 @@ def extra(run, impl, known):
                  "env": {"ZOPE_INTERFACE_STRICT_IRO": "1"}, "case": scases[j], "observed": res["obs"][j],
                  "python": replay_text(scases[j], {}, mode)}, "strictenv_%s_%d" % (mode, j))
 
+    # (3) legacy environment: every __sro__ = legacy order with Interface last, and still a valid linearization
+    lcases = scases[:len(scases) // 2] + [c for c in FIXED if "rebase" not in c]
+    for mode in ("c", "py"):
+        st, res = impl.run(DRIVER, {"cases": lcases, "env_legacy": True}, mode,
+                           env={"ZOPE_INTERFACE_USE_LEGACY_IRO": "1", "C03_KEEP_ENV": "1"})
+        if st != "ok":
+            raise C.HarnessError("legacy-env driver failed: %r" % (res,))
+        terms = []
+        for ob in res["obs"]:
+            if "exc" in ob:
+                raise C.HarnessError("legacy-env driver exception: %r" % (ob,))
+            terms.append("(0, %s, %s, %s)" % (cgraph(ob["graph"]), cnl(ranks_of(ob["graph"])),
+                                              C.clist(["(%d, %s)" % (x, cnl(m)) for x, m in ob["sros"]])))
+        bad_m, bad_s, errors = C.coq_eval_cases("Tie.C03leg", terms, shard=150)
+        if errors:
+            raise C.HarnessError("coqc failed on legacy-env cases: " + json.dumps(errors)[:2000])
+        run.coverage["legacy_env_hierarchies_%s" % mode] = len(terms)
+        for j in bad_s[:3]:
+            run.add_violation(
+                "with ZOPE_INTERFACE_USE_LEGACY_IRO=1 (mode %s) an __sro__ is not a valid linearization" % mode,
+                {"property": ID, "kind": "implementation contradicts Spec on this input", "mode": mode,
+                 "env": {"ZOPE_INTERFACE_USE_LEGACY_IRO": "1"}, "case": lcases[j], "observed": res["obs"][j],
+                 "python": replay_text(lcases[j], {}, mode)}, "legacyenv_%s_%d" % (mode, j))
+        for j in [k for k in bad_m if k not in set(bad_s)][:3]:
+            run.add_violation(
+                "legacy environment (mode %s): model and implementation differ on hierarchy %d" % (mode, j),
+                {"property": ID, "kind": "correspondence broken (legacy environment)", "mode": mode,
+                 "case": lcases[j], "observed": res["obs"][j]}, "legacyenv_tie_%s_%d" % (mode, j), no_input=True)
+
 
 TECHNIQUE = ("Coq proof over a Gallina transcription of ro.py / _calculate_sro against a textbook-C3 Spec; vm_compute "
              "correspondence with both implementations on generated hierarchies; CPython MRO as Spec oracle")
-LEVEL_TEXT = ("Machine-checked theorems (Properties/C03.v, 18 theorems, closed under the global context) state for ALL "
+LEVEL_TEXT = ("Machine-checked theorems (Properties/C03.v, 19 theorems, closed under the global context) state for ALL "
               "finite acyclic ordered hierarchies that the model's __sro__ is a valid linearization ending with Interface, "
               "equals the textbook C3 order whenever that exists, that strict mode raises / is_consistent is False exactly "
               "when it does not, that the legacy fallback is still a valid linearization, and that the merge terminates. "
